@@ -29,6 +29,7 @@ type Verifier struct {
 	strictCalls  bool
 	ghostTypes   map[string]types.Type
 	timeT        types.Type
+	treeT        types.Type
 	errTypes     map[string]types.Type
 	loadS        float64
 	repo         string
@@ -489,4 +490,25 @@ func (v *Verifier) verifyLemma(name string, timeout int) *FuncReport {
 	rep.Failed = x.failed
 	rep.TimeS = time.Since(t0).Seconds()
 	return rep
+}
+
+// ghostTreeType: map[int]crdt.Value, the abstract content of a mast snapshot.
+func (v *Verifier) ghostTreeType() types.Type {
+	v.tagMu.Lock()
+	defer v.tagMu.Unlock()
+	if v.treeT != nil {
+		return v.treeT
+	}
+	cv := v.tpkgs["github.com/jrhy/s3db/kv/crdt"].Scope().Lookup("Value").Type()
+	v.treeT = types.NewMap(types.Typ[types.Int], cv)
+	return v.treeT
+}
+
+func (v *Verifier) keyPtrType() types.Type {
+	if p := v.tpkgs["github.com/jrhy/s3db"]; p != nil {
+		if o := p.Scope().Lookup("Key"); o != nil {
+			return types.NewPointer(o.Type())
+		}
+	}
+	return nil
 }
